@@ -169,6 +169,27 @@ func (w *World) Facts() *Facts {
 	w.extractGrammar(f)
 	w.extractHandlers(f)
 	w.extractBuiltins(f)
+	// a value bound to a factory's closure may itself be the closure another factory returns
+	// (`contextOrArgument(nameOf(localOnly))`): read it as that closure, with the closure's own bindings
+	for _, bind := range f.BuiltinBind {
+		for i := 0; i < 3; i++ {
+			changed := false
+			for fv, v := range bind {
+				if call, ok := stripConv(v).(*ssa.Call); ok {
+					if fn, inner := closureFromFactory(call); fn != nil {
+						bind[fv] = fn
+						for k, iv := range inner {
+							bind[k] = iv
+						}
+						changed = true
+					}
+				}
+			}
+			if !changed {
+				break
+			}
+		}
+	}
 	return f
 }
 
